@@ -342,6 +342,103 @@ def locked_context_case(clsname, rng):
     return out
 
 
+def queued_remove_case(clsname, rng):
+    """queued machine: a callback of q0's event queues events for the other models and then removes SEVERAL of
+    them in one remove_model([...]) call — none of the removed models may be touched afterwards (no reference
+    retained in the queue), the kept ones are processed exactly once"""
+    out = []
+    cls, kw = get_cls(clsname)
+    n = rng.randint(3, 4)
+    log = []
+    box = {}
+
+    class QM(PlainModel):
+        def entered(self, *a, **k):
+            log.append(self.name)
+
+        def kick(self, *a, **k):
+            if self.name != 'q0':
+                return
+            for m in box['others']:
+                m.go()
+            box['mach'].remove_model(list(box['victims']))
+    models = [QM('q%d' % i) for i in range(n)]
+    others = models[1:]
+    rng.shuffle(others)
+    victims = rng.sample(others, rng.randint(2, len(others)))
+    box['others'], box['victims'] = others, victims
+    mach = cls(model=list(models), states=[{'name': 'A'}, {'name': 'B', 'on_enter': 'entered'}],
+               transitions=[{'trigger': 'go', 'source': 'A', 'dest': 'B', 'before': 'kick'}], initial='A', queued=True,
+               auto_transitions=False, **kw)
+    box['mach'] = mach
+    k, r = call(mach, models[0].go)
+    info = {'class': clsname, 'removed': [v.name for v in victims], 'queued_for': [m.name for m in others]}
+    if k != 'ok':
+        out.append(('queued-remove-%s' % k, dict(info, err=repr(r)[:120]), 'C10.queued-remove'))
+        return out
+    touched = [v.name for v in victims if v.state != 'A' or v.name in log]
+    if touched:
+        out.append(('removed-model-processed-from-the-queue', dict(info, touched=touched, log=list(log)), 'C10.queued-remove'))
+    kept = [m.name for m in others if m not in victims]
+    want = ['q0'] + kept
+    if sorted(log) != sorted(want) or any(m.state != 'B' for m in models if m.name in want):
+        out.append(('kept-model-not-processed-exactly-once', dict(info, log=list(log), expected=want), 'C10.queued-remove'))
+    return out
+
+
+def async_model_queue_case(clsname, rng):
+    """queued='model' on the async classes: models attached in ONE add_model([...]) call (or one by one, or through
+    the constructor) have independent queues — while a0's event is suspended inside a callback, an event on a1 is
+    processed at once, by its own caller"""
+    out = []
+    cls, kw = get_cls(clsname)
+    attach = rng.choice(['list', 'list', 'each', 'ctor'])
+    gate = {}
+    res = {}
+
+    class AM(PlainModel):
+        async def hold(self, *a, **k):
+            if self.name == 'a0':
+                gate['inside'].set()
+                await gate['release'].wait()
+
+    a0, a1 = AM('a0'), AM('a1')
+
+    async def main():
+        gate['inside'], gate['release'] = asyncio.Event(), asyncio.Event()
+        states = ['A', {'name': 'B', 'on_enter': 'hold'}]
+        trans = [['go', 'A', 'B']]
+        if attach == 'ctor':
+            mach = cls(model=[a0, a1], states=states, transitions=trans, initial='A', queued='model',
+                       auto_transitions=False, **kw)
+        else:
+            mach = cls(model=None, states=states, transitions=trans, initial='A', queued='model',
+                       auto_transitions=False, **kw)
+            if attach == 'list':
+                mach.add_model([a0, a1])
+            else:
+                mach.add_model(a0)
+                mach.add_model(a1)
+        t0 = asyncio.ensure_future(a0.go())
+        await asyncio.wait_for(gate['inside'].wait(), 5)
+        res['r1'] = await asyncio.wait_for(a1.go(), 5)
+        res['s1_when_returned'] = a1.state
+        gate['release'].set()
+        res['r0'] = await asyncio.wait_for(t0, 5)
+        res['final'] = (a0.state, a1.state)
+    try:
+        asyncio.run(main())
+    except BaseException as e:     # noqa
+        out.append(('async-model-queue-scenario-failed', {'class': clsname, 'attach': attach, 'err': repr(e)[:160]},
+                    'C10.async-model-queue'))
+        return out
+    if res.get('s1_when_returned') != 'B' or not res.get('r1') or res.get('final') != ('B', 'B'):
+        out.append(('event-on-one-model-waited-for-another-models-event',
+                    {'class': clsname, 'attach': attach, 'observed': {k: str(v) for k, v in res.items()}},
+                    'C10.async-model-queue'))
+    return out
+
+
 def two_machines_case(rng):
     """machine B (other model_attribute, distinct event names) on the same model objects must not disturb A"""
     out = []
@@ -394,7 +491,7 @@ def lifecycle_chunk(seed, idx, n):
     rng = random.Random('C10/life/%d/%d' % (seed, idx))
     ex = Exploration()
     for _ in range(n):
-        kind = rng.choice(['life', 'life', 'life', 'lockctx', 'two'])
+        kind = rng.choice(['life', 'life', 'life', 'lockctx', 'two', 'qremove', 'asyncq'])
         if kind == 'life':
             clsname = rng.choice(SYNC_CLASSES + ASYNC_CLASSES)
             queued = rng.choice([False, True] + (['model'] if 'Async' in clsname else []))
@@ -408,6 +505,18 @@ def lifecycle_chunk(seed, idx, n):
             res = locked_context_case(clsname, random.Random(sub))
             case = {'kind': kind, 'cls': clsname, 'sub': sub}
             key = 'lockctx:' + clsname
+        elif kind == 'qremove':
+            clsname = rng.choice(SYNC_CLASSES)
+            sub = rng.randrange(1 << 30)
+            res = queued_remove_case(clsname, random.Random(sub))
+            case = {'kind': kind, 'cls': clsname, 'sub': sub}
+            key = 'qremove:' + clsname
+        elif kind == 'asyncq':
+            clsname = rng.choice(ASYNC_CLASSES)
+            sub = rng.randrange(1 << 30)
+            res = async_model_queue_case(clsname, random.Random(sub))
+            case = {'kind': kind, 'cls': clsname, 'sub': sub}
+            key = 'asyncq:' + clsname
         else:
             sub = rng.randrange(1 << 30)
             res, d = two_machines_case(random.Random(sub))
@@ -430,6 +539,10 @@ def rerun_lifecycle(case):
         return lifecycle_case(case['cls'], case['queued'], random.Random(case['sub']))
     if case['kind'] == 'lockctx':
         return locked_context_case(case['cls'], random.Random(case['sub']))
+    if case['kind'] == 'qremove':
+        return queued_remove_case(case['cls'], random.Random(case['sub']))
+    if case['kind'] == 'asyncq':
+        return async_model_queue_case(case['cls'], random.Random(case['sub']))
     return two_machines_case(random.Random(case['sub']))[0]
 
 
